@@ -52,7 +52,7 @@ func init() {
 			// kvfault=plain|txn: keyvalue.FS over a store in which every store call is failed once (C14)
 			kc := fsad.KVFaultConfig{PropFault: o.attr("fault", "C14"), Store: strings.TrimPrefix(kind, "kvfault=")}
 			kc.Config = fsad.Config{AdapterName: kind, PropState: o.attr("state", "-"), PropErr: o.attr("err", "-"), PropErrPath: "-",
-				PropWF: o.attr("wf", "-"), PropList: o.attr("list", "-"), Names: o.Names, Depth: o.Depth}
+				PropWF: o.attr("wf", "C03"), PropList: o.attr("list", "-"), Names: o.Names, Depth: o.Depth}
 			return &fsad.KVFaultAdapter{Cfg: kc}
 		}
 		if strings.HasPrefix(kind, "mask=") || strings.HasPrefix(kind, "fault=") {
